@@ -87,6 +87,8 @@ def content_type_for(name):
         return "text/calendar"
     if name.endswith(".vcf"):
         return "text/vcard"
+    if name.endswith(".txt"):
+        return "text/plain"
     return "application/octet-stream"
 
 
